@@ -1712,6 +1712,10 @@ outer:
 		if len(a.Elements) == len(b.Elements) && a.Inverted != b.Inverted {
 			return false
 		}
+		if len(a.Elements) < len(b.Elements) && a.Inverted {
+			// a requires its last element to not match, b has a as prefix and requires it to match
+			return false
+		}
 		*dcs = append((*dcs)[:i-1], (*dcs)[i:]...)
 		i--
 	}
